@@ -317,12 +317,12 @@ func ruleC15Recheck(cx *Ctx) {
 	const rule = "C15.recheck"
 	cx.R.Rule(rule, 3, "after locking the root bucket Compute tests 'resize in progress' and then 'newer table exists' (for the table it indexed) before it reads or writes any slot; each failing edge unlocks and retries")
 	fn := cx.need(rule, hmPkg, "Map", "Compute")
-	rip := cx.need(rule, hmPkg, "Map", "resizeInProgress")
+	resizingF := cx.needField(rule, hmPkg, "Map", "resizing")
 	nte := cx.need(rule, hmPkg, "Map", "newerTableExists")
 	mu := cx.needField(rule, hmPkg, "bucket", "mu")
 	table := cx.needField(rule, hmPkg, "Map", "table")
 	meta := cx.needField(rule, hmPkg, "bucket", "meta")
-	if fn == nil || rip == nil || nte == nil || mu == nil || table == nil || meta == nil {
+	if fn == nil || resizingF == nil || nte == nil || mu == nil || table == nil || meta == nil {
 		return
 	}
 	name := funcName(fn)
@@ -331,7 +331,8 @@ func ruleC15Recheck(cx *Ctx) {
 		switch {
 		case mutexOp(in, mu, "Lock"):
 			lock = in
-		case isCallTo(in, rip):
+		case atomicOp(in, resizingF, "Load"):
+			// the "resize in progress" test: a load of the flag, in place or through its accessor
 			ripCall = in
 		case isCallTo(in, nte):
 			nteCall = in
@@ -387,7 +388,11 @@ func ruleC15Recheck(cx *Ctx) {
 		for _, i := range ifsOn(chk.(ssa.Value)) {
 			succ := i.If.Block().Succs[i.TrueIdx]
 			first := firstEffect(succ)
-			cx.R.Check(first != nil && mutexOp(first, mu, "Unlock"), rule, name, "failing edge unlocks: "+calleeOf(chk).Name(), cx.P.where(chk), "a failed re-check releases the bucket lock before waiting/retrying")
+			what := "resize in progress"
+			if chk == nteCall {
+				what = "newer table exists"
+			}
+			cx.R.Check(first != nil && mutexOp(first, mu, "Unlock"), rule, name, "failing edge unlocks: "+what, cx.P.where(chk), "a failed re-check releases the bucket lock before waiting/retrying")
 		}
 	}
 }
